@@ -177,6 +177,30 @@ namespace c07
     finish(p); return p;
   }
 
+  // New values on the *existing layout* (same stored positions) for the value-update histories: strictly row and column
+  // diagonally dominant with positive diagonal, symmetric iff `sym`, globally scaled by a power of two; entries are drawn
+  // anew, so data cached from the previous values (transpose, factorisation, inverse diagonal) cannot accidentally fit.
+  inline Problem regen_on_layout(vh::Rng& r, const Problem& old, bool sym)
+  {
+    Problem p = old; p.kind = sym ? "updated_spd_dominant" : "updated_nonsym_dominant"; p.spd = sym; p.dominant = true; p.ilu_safe = true;
+    Sys& s = p.s; const Index n = s.n; const int vs = int(r.below(2));
+    const double sc = std::ldexp(1.0, int(r.pick<int>({-6, -3, 2, 5})));
+    std::fill(s.a.begin(), s.a.end(), 0.0L);
+    for(Index i = 0; i < n; ++i) for(Index j = (sym ? i + 1 : 0); j < n; ++j) if(i != j && s.stored(i, j) && (!sym || s.stored(j, i)))
+    { const LD v = (LD)vl::gen_nonzero(r, vs, true); s.a[std::size_t(i) * n + j] = v; if(sym) s.a[std::size_t(j) * n + i] = v; }
+    const double f = r.pick<double>({1.25, 2.0, 4.0});
+    double dmin = 1e300, dmax = 0; LD fro = 0;
+    for(Index i = 0; i < n; ++i)
+    {
+      LD rs = 0, cs = 0; for(Index j = 0; j < n; ++j) if(j != i) { rs += std::fabs(s.a[std::size_t(i) * n + j]); cs += std::fabs(s.a[std::size_t(j) * n + i]); }
+      const double d = double(float(double(std::max(rs, cs)) * f * 1.0001 + r.real(0.5, 2.0)));
+      s.a[std::size_t(i) * n + i] = (LD)d; dmin = std::min(dmin, d * (1.0 - 1.0 / f)); dmax = std::max(dmax, d * (1.0 + 1.0 / f));
+    }
+    for(auto& v : s.a) { v *= (LD)sc; fro += v * v; }
+    p.anorm = std::sqrt(fro); p.cond_bound = dmax / dmin * 1.001; s.pattern = p.kind;
+    return p;
+  }
+
   inline Problem gen_problem(vh::Rng& r, Index maxn, bool need_spd)
   {
     const int k = int(r.below(need_spd ? 4 : 6));
@@ -552,18 +576,33 @@ namespace c07
 
   // Mk_: shared_ptr<ISolver>(const Mat&, const Filter&, shared_ptr<SBase> precond)
   template<typename TP_, typename MatX_, typename FilterX_, typename Mk_>
-  void run_history(vh::Ctx& c, const CaseCfg& cfg, typename TP_::Env& env, const Problem& p, const MatX_& m, const FilterX_& f, std::shared_ptr<typename TP_::PreT> precond, Mk_ mk, const std::string& config, Pre pre)
+  void run_history(vh::Ctx& c, const CaseCfg& cfg, typename TP_::Env& env, const Problem& p0, Mat& local_matrix, const MatX_& m, const FilterX_& f, std::shared_ptr<typename TP_::PreT> precond, Mk_ mk, const std::string& config, Pre pre)
   {
-    const SolverInfo& si = *cfg.info; const Sys& s = p.s; const Index n = s.n; vh::Rng& r = c.rng;
+    const SolverInfo& si = *cfg.info; const Index n = p0.s.n; vh::Rng& r = c.rng;
+    const Problem* cur = &p0; Problem p_upd; bool updated = false;
     auto sol = mk(m, f, precond);
     typename TP_::SolT& is = *sol;
     is.set_plot_mode(Solver::PlotMode::none);
     if(r.coin(0.3)) is.init(); else { is.init_symbolic(); is.init_numeric(); }
-    const int nruns = int(r.range(2, 4));
+    // value-update history (~30% of the cases): first solve -> done_numeric -> matrix values overwritten in place (same layout,
+    // same scope, different system) -> init_numeric (no done_symbolic) -> apply and correct, judged against the NEW matrix
+    const bool do_update = r.coin(0.3);
+    const int nruns = do_update ? int(r.range(3, 4)) : int(r.range(2, 4));
+    if(do_update) c.tag("history:value_update+init_numeric");
     bool resym = false;
     for(int run = 0; run < nruns; ++run)
     {
-      const bool use_correct = r.coin(0.5);
+      if(do_update && run == 1)
+      {
+        is.done_numeric();
+        // CG-type solvers stay SPD; the others switch symmetry class where the layout allows it
+        p_upd = regen_on_layout(r, p0, si.spd_only ? true : !p0.spd);
+        c08::write_values(local_matrix, p_upd.s);
+        is.init_numeric();
+        cur = &p_upd; updated = true;
+      }
+      const Problem& p = *cur; const Sys& s = p.s;
+      const bool use_correct = (do_update && run == 1) ? false : ((do_update && run == 2) ? true : r.coin(0.5));
       // right-hand side: random / A*x_true with small integers (exactly representable solution) / zero
       std::vector<double> b(n), xtrue;
       const int bk = int(r.below(10));
@@ -600,6 +639,7 @@ namespace c07
       if(bscale == 0.0) rc.rtags.push_back("def0:zero");
       else if(bscale < set.tol_abs_low) rc.rtags.push_back("def0:below_tol_abs_low");
       if(si.recycles && run > 0) rc.rtags.push_back("recycled");
+      if(updated) rc.rtags.push_back("history:value_update+init_numeric");
       if(set.min_iter > 0) rc.rtags.push_back("min_iter>0");
       if(set.min_iter == set.max_iter) rc.rtags.push_back("min_iter==max_iter");
       if(conv) rc.rtags.push_back("conv");
@@ -697,7 +737,7 @@ namespace c07
       auto go = [&](const auto& lf)
       {
         TP_::with_system(env, m, lf, [&](typename TP_::Env& e, const auto& mx, const auto& fx)
-        { run_history<TP_>(c, cfg, e, p, mx, fx, TP_::make_precond(e, pre, mx, fx, omega), mk, config, pre); });
+        { run_history<TP_>(c, cfg, e, p, m, mx, fx, TP_::make_precond(e, pre, mx, fx, omega), mk, config, pre); });
       };
       if(unit) { FUnit f(p.s.n); for(Index i = 0; i < p.s.n; ++i) if(p.s.fixed[i]) f.add(i, double(c.rng.range(-3, 3))); go(f); }
       else { FNone f; go(f); }
